@@ -118,8 +118,68 @@ def identifiers(out):
     return ids, inf, main
 
 
+def shared_temporary(main, obs):
+    """Two values, two temporaries: within one emitted line, in a run of READ / RUN statements (the calls hoisted out of
+    one source statement, the items a READ parks in temporaries) no temporary is written a second time before anything
+    has read its first value.  -> the identifier written twice, or None"""
+    by_line = {}
+    for st in main.body:
+        by_line.setdefault(st.line, []).append(st)
+    for ln_, sts in by_line.items():
+        pending = set()
+        for st in sts:
+            if st.k == "read":
+                for a in st.targets:
+                    if a[0] == "ref" and not a[2] and a[1].startswith("tmp_"):
+                        obs["counters"]["temporary_writes_checked"] = obs["counters"].get("temporary_writes_checked", 0) + 1
+                        if a[1] in pending:
+                            return a[1]
+                        pending.add(a[1])
+                continue
+            if st.k != "run" or not st.args:
+                pending = set()
+                continue
+            ins = set()
+            for a in st.args[:-1]:
+                static.walk(a, lambda x: ins.add(x[1]) if x[0] == "ref" else None)
+            last = st.args[-1]
+            if last[0] == "ref" and last[2]:
+                subs = set()                                 # subscripts of the output argument are inputs
+                static.walk(last, lambda x: subs.add(x[1]) if x[0] == "ref" else None)
+                ins |= subs - {last[1]}
+            pending -= ins
+            if last[0] == "ref" and not last[2] and last[1].startswith("tmp_"):
+                obs["counters"]["temporary_writes_checked"] = obs["counters"].get("temporary_writes_checked", 0) + 1
+                if last[1] in pending:
+                    return last[1]
+                pending.add(last[1])
+    return None
+
+
 def run_case(case):
     obs = {"counters": {}, "viols": [], "sets": {}}
+    if case["kind"] == "readtmp":
+        # READ through the empty-item filter parks every item in a string temporary until its filter call has run; calls
+        # hoisted out of a target's subscript need temporaries of their own
+        text = case["text"]
+        obs["key"] = "readtmp|" + text
+        conv = harness.convert(text, initialize_vars=case.get("init", False))
+        if not conv["ok"]:
+            obs["nontrivial"] = False
+            obs["counters"]["refused" if conv["documented"] else "internal_error"] = 1
+            return obs
+        r = identifiers(conv["out"])
+        if r is None:
+            obs["nontrivial"] = False
+            obs["counters"]["unparseable_output"] = 1
+            return obs
+        ids, inf, main = r
+        obs["counters"]["identifiers_checked"] = len(ids)
+        hit = shared_temporary(main, obs)
+        if hit:
+            obs["viols"].append({"sig": "C09/temporary-shared-by-two-values", "detail": {"source": text, "identifier": hit,
+                                                                                        "emitted": "\n".join(conv["out"].split("\n")[-4:])}})
+        return obs
     if case["kind"] == "name":
         nm = case["name"]
         obs["key"] = "name|%s|%d|%s|%s|%s" % (nm, case.get("mask", 15), case.get("dim", True), case.get("storage", 32), case.get("layout", 1))
@@ -222,29 +282,9 @@ def run_case(case):
                 if hit:
                     obs["viols"].append({"sig": "C09/user-variable-used-as-temporary", "detail": dict(detail, identifiers=hit)})
                     break
-            # two values, two temporaries: in a run of consecutive RUN statements (the calls hoisted out of one source
-            # statement) no temporary is written a second time before anything has read its first value
-            for ln_, sts in by_line.items():
-                pending = set()
-                hit = None
-                for st in sts:
-                    if st.k != "run" or not st.args:
-                        pending = set()
-                        continue
-                    ins = set()
-                    for a in st.args[:-1]:
-                        static.walk(a, lambda x: ins.add(x[1]) if x[0] == "ref" else None)
-                    pending -= ins
-                    last = st.args[-1]
-                    if last[0] == "ref" and not last[2] and last[1].startswith("tmp_"):
-                        obs["counters"]["temporary_writes_checked"] = obs["counters"].get("temporary_writes_checked", 0) + 1
-                        if last[1] in pending:
-                            hit = last[1]
-                            break
-                        pending.add(last[1])
-                if hit:
-                    obs["viols"].append({"sig": "C09/temporary-shared-by-two-values", "detail": dict(detail, identifier=hit)})
-                    break
+            hit = shared_temporary(main, obs)
+            if hit:
+                obs["viols"].append({"sig": "C09/temporary-shared-by-two-values", "detail": dict(detail, identifier=hit)})
             both = sorted(nm2 for nm2, ks in kinds.items() if len(ks) > 1)
             obs["counters"]["kind_checks"] = len(kinds)
             if both:
@@ -388,6 +428,13 @@ def cases(tier, seed):
         for k in range(4):
             for sfx in ("", "$"):
                 yield {"kind": "printarr", "name": nm, "blanks": k, "suffix": sfx}
+    subs = ["LEN(STR$(X))", "LEN(HEX$(X))+LEN(STR$(Y))", "INT(X)", "LEN(STRING$(2,B$))", "INT(X)+LEN(STR$(Y))", "1"]
+    k = 0
+    for sub in subs:
+        for shape in ("B,A(@)", "A(@),B,C", "A(@)", "B,C,A(@)", "A(@),A(@)", "B$,A(@),C"):
+            k += 1
+            for data in (",1,2", "1,2,3"):
+                yield {"kind": "readtmp", "text": "10 DIM A(9)\n20 DATA %s,4\n30 READ %s\n" % (data, shape.replace("@", sub)), "init": k % 2 == 0}
     crunch = ["10 @=7\n20 FORI=@TO9\n30 NEXT\n", "10 @=7\n20 FORI=1TO@STEP2\n30 NEXT\n", "10 @=7\n20 FORI=1TO9STEP@\n30 NEXT\n",
               "10 IFA=@THEN10\n", "10 IF@THEN10\n", "10 IFA=@GOTO10\n", "10 ON@GOTO10,10\n", "10 ON@GOSUB10\n20 RETURN\n",
               "10 IFA=1THENB=@ELSEB=2\n", "10 IFA=@ORB=@THEN10\n", "10 IFA=@ANDB=1THEN10\n", "10 B=NOT@\n", "10 PRINT@;@TAB(3)\n"]
